@@ -6,7 +6,7 @@ from ..core import sym
 from ..core.expand import u, call_name, get_arg, bind_args, phi_alternatives, is_marker, Expander
 from ..core.loader import Inconclusive, const_value
 from .common import (calls_in, callee, returns, expander, strip_shape, linear_coeffs, guards_of, subscript_stores,
-                     all_nodes, raise_class, role_of, kw, is_true, compare_nf, stmt_of)
+                     all_nodes, raise_class, role_of, kw, is_true, compare_nf, stmt_of, find_assignments, is_none_test)
 
 EXPLANATION = (
     "Decided (structure, necessary conditions): D1 the bin index is numpy.floor of one quotient and nothing else "
@@ -717,12 +717,28 @@ def rule_generators(ck):
     rets = [r for r in returns(g) if r.value is not None]
     oo = ck.ob('C02-D5.magbins', g, rets[0].value if rets else 'return', rets[0] if rets else g.node)
     ok = False
+    why = ''
     if len(rets) == 1 and isinstance(rets[0].value, ast.Call) and callee(P, g, rets[0].value) == f.qualname:
         m, good = bind_args(f, rets[0].value)
         ps = g.positional_params
         ok = good and all(isinstance(m.get(q), ast.Name) and m[q].id == p for p, q in zip(ps, f.positional_params[:3]))
+        # unchanged: a parameter may only be rebound where it was not given (a None test), never by truthiness - 0.0 is a magnitude
+        why = ''
+        Nn = sym.Normalizer(env={})
+        for p in ps[:3]:
+            for a in find_assignments(g, p):
+                none_guard = any(pol and is_none_test(t, p) for t, pol in guards_of(a, g.node))
+                v = a.value if isinstance(a, ast.Assign) else None
+                if isinstance(v, ast.IfExp):
+                    keep, other = (v.orelse, True) if is_none_test(v.test, p) else ((v.body, True) if is_none_test(ast.UnaryOp(op=ast.Not(), operand=v.test), p) else (None, False))
+                    if other and isinstance(keep, ast.Name) and keep.id == p:
+                        continue
+                if none_guard:
+                    continue
+                ok = False
+                why = '; `%s` rebinds the argument without testing it against None (a start or end magnitude of 0.0 is a value, not a missing argument)' % u(a)[:80]
     (oo.ok('cleaner_range(start, end, step)') if ok else
-     oo.fail('magnitude_bins does not forward (start, end, step) unchanged and in order to cleaner_range'))
+     oo.fail('magnitude_bins does not forward (start, end, step) unchanged and in order to cleaner_range' + why))
 
 
 def rule_pure(ck):
@@ -737,4 +753,12 @@ def rule_own_magnitudes_shared(ck):
     c11.rule_own_magnitudes(ck)
 
 
-RULES = [rule_kernel, rule_tolerance, rule_tolerance_flow, rule_range, rule_callsites, rule_generators, rule_pure, rule_own_magnitudes_shared]
+def rule_precision(ck):
+    """C02-D1.double: coordinates, bounds and edges stay in the precision they were supplied in - no conversion to a narrower numeric type
+    (a bound rounded to float32 moves by up to 4e-6 degrees, so points next to it change owner)"""
+    from .common import rule_double_precision
+    ck.clause('D1')
+    rule_double_precision(ck, 'C02-D1.double', modules=('csep.utils.calc',), what='values and bin edges')
+
+
+RULES = [rule_kernel, rule_tolerance, rule_tolerance_flow, rule_range, rule_callsites, rule_generators, rule_pure, rule_own_magnitudes_shared, rule_precision]
